@@ -39,6 +39,7 @@ type write struct {
 	body  []byte
 	md5   string
 	ctype string
+	crc   string // base64 CRC32 of the body, sent as x-amz-checksum-crc32 and read back with x-amz-checksum-mode
 }
 
 type writes struct {
@@ -46,9 +47,15 @@ type writes struct {
 	next  int
 	byMD5 map[string]*write
 	byID  map[int]*write
+	byCRC map[string]*write
 }
 
-func newWrites() *writes { return &writes{byMD5: map[string]*write{}, byID: map[int]*write{}} }
+func newWrites() *writes {
+	return &writes{byMD5: map[string]*write{}, byID: map[int]*write{}, byCRC: map[string]*write{}}
+}
+
+// ckMode asks for the stored checksum with a read
+var ckMode = []string{"X-Amz-Checksum-Mode", "ENABLED"}
 
 // mk creates a fresh write with an id-determined length and PRNG content.
 func (ws *writes) mk(big bool) *write {
@@ -66,16 +73,17 @@ func (ws *writes) mk(big bool) *write {
 	// make the id readable in the body too
 	copy(b, []byte(fmt.Sprintf("w%d|", id)))
 	s := md5.Sum(b)
-	w := &write{id: id, body: b, md5: hex.EncodeToString(s[:]), ctype: fmt.Sprintf("application/x-w-%d", id)}
+	w := &write{id: id, body: b, md5: hex.EncodeToString(s[:]), ctype: fmt.Sprintf("application/x-w-%d", id), crc: s3c.Checksum("crc32", b)}
 	ws.mu.Lock()
 	ws.byMD5[w.md5] = w
 	ws.byID[id] = w
+	ws.byCRC[w.crc] = w
 	ws.mu.Unlock()
 	return w
 }
 
 func (w *write) hdr() []string {
-	return []string{"X-Amz-Meta-Wid", strconv.Itoa(w.id), "Content-Type", w.ctype}
+	return []string{"X-Amz-Meta-Wid", strconv.Itoa(w.id), "Content-Type", w.ctype, "X-Amz-Checksum-Crc32", w.crc}
 }
 
 // ---- atomicity monitor --------------------------------------------------------
@@ -126,6 +134,16 @@ func (ws *writes) judgeRead(r *s3c.Resp, head bool) readObs {
 		etagW = we.id
 	}
 	ids := map[string]int{"etag": etagW, "meta": metaW, "ctype": ctW}
+	if ck := r.Header.Get("X-Amz-Checksum-Crc32"); ck != "" {
+		// only objects written with a checksum report one (copies and multipart objects may not)
+		ws.mu.Lock()
+		wc := ws.byCRC[ck]
+		ws.mu.Unlock()
+		ids["checksum"] = -1
+		if wc != nil {
+			ids["checksum"] = wc.id
+		}
+	}
 	if !head {
 		s := md5.Sum(r.Body)
 		ws.mu.Lock()
@@ -152,7 +170,7 @@ func (ws *writes) judgeRead(r *s3c.Resp, head bool) readObs {
 		}
 	}
 	first := -2
-	for _, k := range []string{"body", "etag", "meta", "ctype"} {
+	for _, k := range []string{"body", "etag", "meta", "ctype", "checksum"} {
 		v, ok := ids[k]
 		if !ok {
 			continue
@@ -379,9 +397,9 @@ func (l *laneA) prepare(p pKind, key string) (*prepared, error) {
 		pr.head = p.name == "HEAD"
 		pr.in = opIn{Kind: "read", Name: p.name}
 		if pr.head {
-			pr.run = func(c *s3c.Client) *s3c.Resp { return c.HeadObject(b, key) }
+			pr.run = func(c *s3c.Client) *s3c.Resp { return c.HeadObject(b, key, ckMode...) }
 		} else {
-			pr.run = func(c *s3c.Client) *s3c.Resp { return c.GetObject(b, key) }
+			pr.run = func(c *s3c.Client) *s3c.Resp { return c.GetObject(b, key, ckMode...) }
 		}
 	}
 	return pr, nil
@@ -511,11 +529,11 @@ func (l *laneA) oneCase(id string, p pKind, j int, wantName string, o string, pl
 	var oW *write
 	switch o {
 	case "GET":
-		oResp = ocl.Do(&s3c.Req{Method: "GET", Path: s3c.ObjPath(b, key), FreshConn: true})
+		oResp = ocl.Do(&s3c.Req{Method: "GET", Path: s3c.ObjPath(b, key), Header: s3c.H{{ckMode[0], ckMode[1]}}, FreshConn: true})
 		oObs = l.ws.judgeRead(oResp, false)
 		oOp.In = opIn{Kind: "read", Name: "GET"}
 	case "HEAD":
-		oResp = ocl.Do(&s3c.Req{Method: "HEAD", Path: s3c.ObjPath(b, key), FreshConn: true})
+		oResp = ocl.Do(&s3c.Req{Method: "HEAD", Path: s3c.ObjPath(b, key), Header: s3c.H{{ckMode[0], ckMode[1]}}, FreshConn: true})
 		oObs = l.ws.judgeRead(oResp, true)
 		oOp.In = opIn{Kind: "read", Name: "HEAD"}
 	case "LIST":
@@ -523,7 +541,7 @@ func (l *laneA) oneCase(id string, p pKind, j int, wantName string, o string, pl
 		oOp.In = opIn{Kind: "read", Name: "LIST"}
 	case "GETV":
 		// read of an older version by id while P runs: it must stay readable and intact throughout
-		oResp = ocl.Do(&s3c.Req{Method: "GET", Path: s3c.ObjPath(b, key), Query: s3c.Q("versionId", pr.stableVid), FreshConn: true})
+		oResp = ocl.Do(&s3c.Req{Method: "GET", Path: s3c.ObjPath(b, key), Query: s3c.Q("versionId", pr.stableVid), Header: s3c.H{{ckMode[0], ckMode[1]}}, FreshConn: true})
 		oObs = l.ws.judgeRead(oResp, false)
 		oOp.In = opIn{Kind: "read", Name: "GETV"}
 	case "PUT":
@@ -625,7 +643,7 @@ func (l *laneA) oneCase(id string, p pKind, j int, wantName string, o string, pl
 		oOp.Out = opOut{Wid: oObs.Wid}
 	}
 	// final read after both returned
-	fr := l.cl[1-place].GetObject(b, key)
+	fr := l.cl[1-place].GetObject(b, key, ckMode...)
 	fo := l.ws.judgeRead(fr, false)
 	fOp := histOp{Who: "final", In: opIn{Kind: "read", Name: "GET"}, Out: opOut{Wid: fo.Wid}, Call: clk.now()}
 	fOp.Ret = fOp.Call + 1
@@ -817,7 +835,7 @@ func runStress(c *ev.Ctx, id string, sc stressCfg, seed int64) {
 				case x < 80:
 					op.In = opIn{Kind: "read", Name: "GET"}
 					op.Call = clk.now()
-					resp = cl.GetObject("stress", key)
+					resp = cl.GetObject("stress", key, ckMode...)
 					op.Ret = clk.now()
 					ro := ws.judgeRead(resp, false)
 					op.Out = opOut{Wid: ro.Wid, Unk: ro.Refused}
@@ -825,7 +843,7 @@ func runStress(c *ev.Ctx, id string, sc stressCfg, seed int64) {
 				default:
 					op.In = opIn{Kind: "read", Name: "HEAD"}
 					op.Call = clk.now()
-					resp = cl.HeadObject("stress", key)
+					resp = cl.HeadObject("stress", key, ckMode...)
 					op.Ret = clk.now()
 					ro := ws.judgeRead(resp, true)
 					op.Out = opOut{Wid: ro.Wid, Unk: ro.Refused}
